@@ -467,6 +467,23 @@ def gen_roc_decimal(rng, maxn=12):
     then the expected flags are unambiguous and any algebraic rearrangement that rounds differently shows."""
     import numpy as np
 
+    if rng.random() < 0.4:
+        # values BORN as float32 (tenths), power-of-two steps, the threshold exactly on a realised rate or one float64 step around
+        # it: in float64 (where a float32 difference is exact) the verdict is unambiguous; a computation kept in float32 rounds
+        # the difference
+        n = rng.randint(2, max(2, min(maxn, 8)))
+        xs32 = [float(np.float32(rng.choice([20.1, 3.7, 35.17, 0.05, 1.3, 7.9, 12.6]))) for _ in range(n)]
+        steps = [rng.choice([1, 2, 4, 8]) for _ in range(n - 1)]
+        t = [1577836800]
+        for d in steps:
+            t.append(t[-1] + d)
+        rates = [abs(np.float64(xs32[i + 1]) - np.float64(xs32[i])) / steps[i] for i in range(n - 1)]
+        rates = [r for r in rates if r > 0]
+        if not rates:
+            return None
+        r0 = rng.choice(rates)
+        thr = float(rng.choice([r0, np.nextafter(r0, np.inf), np.nextafter(r0, -np.inf)]))
+        return {"fn": "roc", "inp": [F(x) for x in xs32], "t": t, "thr": F(thr), "decimal_f32": True}
     n = rng.randint(2, max(2, min(maxn, 8)))
     thr = rng.choice([0.1, 0.2, 0.05, 0.3, 0.7])
     steps = [rng.choice([3, 6, 7, 12, 24, 41, 48, 53]) for _ in range(n - 1)]
